@@ -390,9 +390,9 @@ Definition judge_doc (stream : string) (jd : list jelem) (os : list dobs) : opti
       if negb (String.eqb (o_src D) (render_doc jd) && String.eqb (o_src M) (main_only d)) then None else
       if is_perr (o_res M) then Some (v_bad "code-only-document-does-not-parse" (Lx []))
       else if is_perr (o_res D) then
-        if kf_list_dash d then Some (v_kf "list-then-dash-line")
-        else if String.eqb stream "plain" then Some (v_bad "plain-prose-parse-error" (Lx []))
-        else Some (v_adv (stream ++ "-parse-error"))
+        if negb (String.eqb stream "plain") then Some (v_adv (stream ++ "-parse-error"))
+        else if kf_list_dash d then Some (v_kf "list-then-dash-line")
+        else Some (v_bad "plain-prose-parse-error" (Lx []))
       else
         match ns_checks d D (ns_names d) rest with
         | None => None
